@@ -45,10 +45,11 @@ fn exec_action_inner(w: &mut World, a: &Value) -> Value {
         "Send" => w.op_send(c, g, ts, rank, a["mts"].as_u64().unwrap_or(ts)),
         "Leave" => w.op_leave(c, g, ts, rank),
         "Deliver" => w.op_deliver(c, a["e"].as_str().unwrap(), ts, rank),
-        "Restart" => w.op_restart(c),
+        "Restart" => w.op_restart(c, a["ttl"].as_u64()),
         "Forge" => w.op_forge(c, g, a["claimed"].as_str().unwrap(), a["idclass"].as_str().unwrap(), ts, a["mts"].as_u64().unwrap_or(ts)),
         "Raw" => w.op_raw(c, g, a["kind"].as_str().unwrap(), &a["arg"], ts, rank),
         "Junk" => w.op_junk(c, g, a["class"].as_str().unwrap(), ts, rank, a["base"].as_str().unwrap_or("")),
+        "DropKP" => w.op_dropkp(c, a["w"].as_str().unwrap()),
         "Welcome" => w.op_welcome(c, a["w"].as_str().unwrap(), a["what"].as_str().unwrap(), a["fresh"].as_bool().unwrap_or(false)),
         _ => panic!("unknown op {op}"),
     }
@@ -63,6 +64,7 @@ pub struct RandCfg {
     pub mdk: MdkConfig,
     pub profile: String, // core | ...
     pub restarts: bool,
+    pub ttl: bool,
     pub observers: bool,
     pub replay_welcomes: bool,
     pub junk: bool,
@@ -279,7 +281,14 @@ pub fn random_history(cfg: &RandCfg, rng: &mut StdRng, r: &mut Recorder, clients
             if v["res"] == json!("Ok") { junk_events.push(v["e"].as_str().unwrap().to_string()); }
             Some(v)
         } else if cfg.restarts && roll >= 96 && w.clients[&c].backend == "sql" {
-            Some(exec_action(&mut w, &json!({"op":"Restart","c":c})))
+            if cfg.ttl && rng.gen_range(0..100) < 60 {
+                // start-up pruning: TTL values around the ages of the stored snapshots (0-2 s), sometimes after a pause
+                if rng.gen_range(0..100) < 30 { std::thread::sleep(std::time::Duration::from_millis(1100)); }
+                let ttl = [0u64, 1, 2, 3][rng.gen_range(0..4)];
+                Some(exec_action(&mut w, &json!({"op":"Restart","c":c,"ttl":ttl})))
+            } else {
+                Some(exec_action(&mut w, &json!({"op":"Restart","c":c})))
+            }
         } else if roll < 26 {
             Some(exec_action(&mut w, &json!({"op":"Merge","c":c,"g":g})))
         } else if roll < 28 {
@@ -293,6 +302,13 @@ pub fn random_history(cfg: &RandCfg, rng: &mut StdRng, r: &mut Recorder, clients
                 _ => None,
             }
         } else if roll < 42 {
+            // with narrow sender-ratchet windows configured, senders talk in bursts so that late / early generations occur
+            if cfg.mdk.out_of_order_tolerance < 10 && rng.gen_bool(0.35) {
+                for _ in 0..rng.gen_range(1..5) {
+                    let v = exec_action(&mut w, &json!({"op":"Send","c":c,"g":g,"ts":ts,"rank":0,"mts":clock}));
+                    r.emit(v);
+                }
+            }
             Some(exec_action(&mut w, &json!({"op":"Send","c":c,"g":g,"ts":ts,"rank":0,"mts":clock - rng.gen_range(0..3)})))
         } else {
             // deliver some event
@@ -398,6 +414,28 @@ pub fn welcome_history(cfg: &RandCfg, rng: &mut StdRng, r: &mut Recorder, client
     let mut rk = 1u64;
     let mut step = |w: &mut World, r: &mut Recorder, a: Value| -> Value { let v = exec_action(w, &a); r.emit(v.clone()); v };
     let joiner = if rng.gen_bool(0.7) { "c3" } else { "c4" };
+    // a hostile outsider runs a second group, gives it g1's (public) nostr id and invites a member of g1 into it:
+    // the invitation must fail without touching g1
+    if rng.gen_bool(0.35) {
+        let hostile = if joiner == "c3" { "c4" } else { "c3" };
+        let victim = if rng.gen_bool(0.5) { "c1" } else { "c2" };
+        let other = if victim == "c1" { "c2" } else { "c1" };
+        r.emit(w.op_create(hostile, "g2", &[other.to_string()], &[hostile.to_string()]));
+        let n1 = w.project("c1", g)["rec"]["nid"].as_str().unwrap_or("").to_string();
+        let v = step(&mut w, r, json!({"op":"Commit","c":hostile,"g":"g2","kind":"rotate","arg":format!("={n1}"),"ts":5,"rank":1}));
+        if v["res"] == json!("Ok") {
+            step(&mut w, r, json!({"op":"Merge","c":hostile,"g":"g2"}));
+            let v2 = step(&mut w, r, json!({"op":"Commit","c":hostile,"g":"g2","kind":"add","arg":[victim],"ts":6,"rank":1}));
+            if v2["res"] == json!("Ok") {
+                step(&mut w, r, json!({"op":"Merge","c":hostile,"g":"g2"}));
+                let hw = v2["welcomes"][0].as_str().unwrap().to_string();
+                for _ in 0..rng.gen_range(1..3) {
+                    step(&mut w, r, json!({"op":"Welcome","c":victim,"w":hw,"what":"process","fresh":rng.gen_bool(0.5)}));
+                    if rng.gen_bool(0.5) { step(&mut w, r, json!({"op":"Welcome","c":victim,"w":hw,"what":"accept","fresh":false})); }
+                }
+            }
+        }
+    }
     for round in 0..rng.gen_range(1..4) {
         clock += 1; rk = rk % 15 + 1;
         // the inviter adds the joiner (possibly while the joiner still holds the group from an earlier round)
@@ -411,12 +449,21 @@ pub fn welcome_history(cfg: &RandCfg, rng: &mut StdRng, r: &mut Recorder, client
         let wn = v["welcomes"][0].as_str().unwrap().to_string();
         if rng.gen_bool(0.7) { step(&mut w, r, json!({"op":"Merge","c":inviter,"g":g})); } else { step(&mut w, r, json!({"op":"Deliver","c":inviter,"e":e,"ts":clock,"rank":0})); }
         for m in ["c1", "c2"] { if m != inviter { step(&mut w, r, json!({"op":"Deliver","c":m,"e":e,"ts":clock,"rank":0})); } }
+        // the joiner still holds the group with a commit of its own in flight: process, merge the old commit, accept
+        if w.project(joiner, g)["pend"] == json!(true) && rng.gen_bool(0.6) {
+            step(&mut w, r, json!({"op":"Welcome","c":joiner,"w":wn,"what":"process","fresh":false}));
+            step(&mut w, r, json!({"op":"Merge","c":joiner,"g":g}));
+            step(&mut w, r, json!({"op":"Welcome","c":joiner,"w":wn,"what":"accept","fresh":false}));
+        }
         // welcome handling in random order with replays and bystanders
         let n_ops = rng.gen_range(2..7);
         for _ in 0..n_ops {
             let who = if rng.gen_bool(0.8) { joiner } else { clients[rng.gen_range(0..clients.len())] };
             let what = ["process", "process", "accept", "decline", "accept"][rng.gen_range(0..5)];
             let fresh = what == "process" && rng.gen_bool(0.35);
+            if rng.gen_bool(0.12) { step(&mut w, r, json!({"op":"DropKP","c":joiner,"w":wn})); }
+            // the joiner may still hold the group from an earlier round with a commit of its own in flight
+            if rng.gen_bool(0.15) { step(&mut w, r, json!({"op":"Merge","c":joiner,"g":g})); }
             step(&mut w, r, json!({"op":"Welcome","c":who,"w":wn,"what":what,"fresh":fresh}));
             if rng.gen_bool(0.3) {
                 clock += 1;
@@ -445,6 +492,11 @@ pub fn welcome_history(cfg: &RandCfg, rng: &mut StdRng, r: &mut Recorder, client
                 step(&mut w, r, json!({"op":"Welcome","c":joiner,"w":wn,"what":what2,"fresh":false}));
             }
         }
+        // the joiner starts a self-update and leaves it in flight (merged, if ever, during the next invitation)
+        if rng.gen_bool(0.4) && w.project(joiner, g)["mls"] == json!("ok") {
+            clock += 1; rk = rk % 15 + 1;
+            step(&mut w, r, json!({"op":"Commit","c":joiner,"g":g,"kind":"self_update","arg":"","ts":clock,"rank":rk}));
+        }
         // sometimes remove the joiner again so that the next round re-invites an ex-member; sometimes the joiner
         // never sees its removal (it then holds the group as Active when re-invited)
         if rng.gen_bool(0.6) {
@@ -454,7 +506,17 @@ pub fn welcome_history(cfg: &RandCfg, rng: &mut StdRng, r: &mut Recorder, client
                 let re = v["e"].as_str().unwrap().to_string();
                 step(&mut w, r, json!({"op":"Merge","c":"c1","g":g}));
                 step(&mut w, r, json!({"op":"Deliver","c":"c2","e":re,"ts":clock,"rank":0}));
-                if rng.gen_bool(0.6) { step(&mut w, r, json!({"op":"Deliver","c":joiner,"e":re,"ts":clock,"rank":0})); }
+                if rng.gen_bool(0.6) {
+                    step(&mut w, r, json!({"op":"Deliver","c":joiner,"e":re,"ts":clock,"rank":0}));
+                    // relay replay: the very wrapper the joiner came in with is delivered again after its removal
+                    if rng.gen_bool(0.5) {
+                        step(&mut w, r, json!({"op":"Welcome","c":joiner,"w":wn,"what":"process","fresh":false}));
+                        if rng.gen_bool(0.7) { step(&mut w, r, json!({"op":"Welcome","c":joiner,"w":wn,"what":"accept","fresh":false})); }
+                        let s2 = ["c1", "c2"][rng.gen_range(0..2)];
+                        let mv = step(&mut w, r, json!({"op":"Send","c":s2,"g":g,"ts":clock,"rank":0,"mts":clock}));
+                        if mv["res"] == json!("Ok") { step(&mut w, r, json!({"op":"Deliver","c":joiner,"e":mv["e"],"ts":clock,"rank":0})); }
+                    }
+                }
             }
         }
     }
@@ -524,6 +586,101 @@ pub fn fork_history(cfg: &RandCfg, rng: &mut StdRng, r: &mut Recorder, clients: 
     r.emit(json!({"op":"Quiesce","passes":3,"stable":true,"regime":"free","posts":posts}));
 }
 
+/// Directed-random proposal races (C01 / C05 / C09): a queued proposal (a member leaves) is auto-committed by several admins
+/// at once, possibly next to an explicit admin commit; members apply a MIP-03-worse commit first (their own or a foreign one)
+/// and meet the better one later, so rollbacks have to restore the proposal queue; the proposal itself may arrive late.
+pub fn props_history(cfg: &RandCfg, rng: &mut StdRng, r: &mut Recorder, clients: &[&str]) {
+    let mut w = World::new(cfg.mdk.clone());
+    for (i, c) in clients.iter().enumerate() {
+        let be = match cfg.backend.as_str() { "mixed" => if (i + cfg.seed as usize) % 2 == 0 { "mem" } else { "sql" }, x => x };
+        w.add_client(c, be);
+    }
+    r.emit(json!({"op":"Reset"}));
+    let g = "g1";
+    let n_admins = rng.gen_range(2..=3usize);
+    let admins: Vec<String> = ["c1", "c2", "c3"][..n_admins].iter().map(|s| s.to_string()).collect();
+    let members: Vec<String> = vec!["c2".into(), "c3".into(), "c4".into()];
+    r.emit(w.op_create("c1", g, &members, &admins));
+    let mut step = |w: &mut World, r: &mut Recorder, a: Value| -> Value { let v = exec_action(w, &a); r.emit(v.clone()); v };
+    let all = ["c1", "c2", "c3", "c4"];
+    let mut clock = 20u64;
+    let mut ranks: Vec<u64> = (1..=15).collect();
+    for _round in 0..rng.gen_range(1..=2) {
+        // who leaves: a non-admin if there is one still in the group
+        let leaver = if n_admins == 2 && rng.gen_bool(0.5) { "c3" } else { "c4" };
+        if w.project(leaver, g)["mls"] != json!("ok") { break; }
+        if rng.gen_bool(0.5) {
+            clock += 1;
+            let s = all[rng.gen_range(0..4)];
+            let mv = step(&mut w, r, json!({"op":"Send","c":s,"g":g,"ts":clock,"rank":0,"mts":clock}));
+            if mv["res"] == json!("Ok") { for c in all { if rng.gen_bool(0.7) { step(&mut w, r, json!({"op":"Deliver","c":c,"e":mv["e"],"ts":clock,"rank":0})); } } }
+        }
+        clock += 1;
+        let lv = step(&mut w, r, json!({"op":"Leave","c":leaver,"g":g,"ts":clock,"rank":0}));
+        if lv["res"] != json!("Ok") { break; }
+        let p = lv["e"].as_str().unwrap().to_string();
+        // the proposal reaches the admins (each auto-commits with its own timestamp / id) and some of the others
+        let mut commits: Vec<String> = vec![];
+        let mut order: Vec<&str> = all.iter().cloned().filter(|c| *c != leaver).collect();
+        order.shuffle(rng);
+        let late: Option<&str> = if rng.gen_bool(0.3) { Some(order[order.len() - 1]) } else { None };
+        let explicit: Option<String> = if rng.gen_bool(0.3) { Some(admins[rng.gen_range(0..n_admins)].clone()) } else { None };
+        for c in &order {
+            if Some(*c) == late { continue; }
+            if explicit.as_deref() == Some(*c) {
+                // this admin commits something of its own before it sees the proposal
+                let rk = ranks.remove(rng.gen_range(0..ranks.len()));
+                let ts = clock + rng.gen_range(0..3);
+                let v = step(&mut w, r, json!({"op":"Commit","c":c,"g":g,"kind":"rename","arg":format!("x{clock}"),"ts":ts,"rank":rk}));
+                if v["res"] == json!("Ok") { commits.push(v["e"].as_str().unwrap().to_string()); }
+                continue;
+            }
+            let rk = ranks.remove(rng.gen_range(0..ranks.len()));
+            let ts = clock + rng.gen_range(0..3);
+            let v = step(&mut w, r, json!({"op":"Deliver","c":c,"e":p,"ts":ts,"rank":rk}));
+            if let Some(o) = v["out"].as_str() { if !o.is_empty() { commits.push(o.to_string()); } }
+        }
+        // a non-admin that holds the queued proposal refreshes its own leaf: self_update() sweeps the proposal store into a
+        // commit that everybody must refuse (it carries out somebody else's proposal without admin rights)
+        if n_admins == 2 && rng.gen_bool(0.4) {
+            let na = if leaver == "c4" { "c3" } else { "c4" };
+            if Some(na) != late && w.project(na, g)["nprops"] != json!(0) {
+                let rk = ranks.remove(rng.gen_range(0..ranks.len()));
+                let ts = clock + rng.gen_range(0..3);
+                let v = step(&mut w, r, json!({"op":"Commit","c":na,"g":g,"kind":"self_update","arg":"","ts":ts,"rank":rk}));
+                if v["res"] == json!("Ok") { commits.push(v["e"].as_str().unwrap().to_string()); }
+            }
+        }
+        clock += 3;
+        // the commits travel in random order; everybody (authors included) is offered each of them, some twice
+        let mut deliveries: Vec<(String, String)> = vec![];
+        for e in &commits { for c in all { deliveries.push((c.to_string(), e.clone())); if rng.gen_bool(0.2) { deliveries.push((c.to_string(), e.clone())); } } }
+        deliveries.shuffle(rng);
+        for (i, (c, e)) in deliveries.iter().enumerate() {
+            step(&mut w, r, json!({"op":"Deliver","c":c,"e":e,"ts":clock,"rank":0}));
+            if let Some(l) = late { if i == deliveries.len() / 2 { step(&mut w, r, json!({"op":"Deliver","c":l,"e":p,"ts":clock,"rank":0})); } }
+            if cfg.restarts && rng.gen_range(0..100) < 4 && w.clients[c.as_str()].backend == "sql" {
+                step(&mut w, r, json!({"op":"Restart","c":c}));
+            }
+        }
+        if ranks.len() < 5 { break; }
+    }
+    // quiescence passes over everything, in publication order
+    let mut stable = false;
+    let mut passes = 0;
+    for _ in 0..4 {
+        passes += 1;
+        let before: Vec<Value> = all.iter().map(|c| w.project(c, g)).collect();
+        let evs = w.ev_order.clone();
+        for e in &evs { for c in all { step(&mut w, r, json!({"op":"Deliver","c":c,"e":e,"ts":clock + 5,"rank":0})); } }
+        let after: Vec<Value> = all.iter().map(|c| w.project(c, g)).collect();
+        if before == after { stable = true; break; }
+    }
+    let posts: Vec<Value> = clients.iter().map(|c| json!({"c":c,"g":g,"post":w.project(c, g)})).collect();
+    if stable { r.emit(json!({"op":"Quiesce","passes":passes,"stable":true,"regime":"free","posts":posts})); }
+    else { r.emit(json!({"op":"Snapshot","posts":posts})); }
+}
+
 pub fn run_random(cfg: &RandCfg, r: &mut Recorder) {
     let clients = ["c1", "c2", "c3", "c4"];
     let sql: Vec<&str> = match cfg.backend.as_str() {
@@ -536,6 +693,7 @@ pub fn run_random(cfg: &RandCfg, r: &mut Recorder) {
     for _ in 0..cfg.histories {
         if cfg.profile == "welcome" { welcome_history(cfg, &mut rng, r, &clients); }
         else if cfg.profile == "fork" { fork_history(cfg, &mut rng, r, &clients); }
+        else if cfg.profile == "props" { props_history(cfg, &mut rng, r, &clients); }
         else { random_history(cfg, &mut rng, r, &clients); }
     }
 }
